@@ -6,15 +6,20 @@ import logs
 ERR_CLASSES = ('Err', 'residual')
 
 
-def _engine(fn, guards, extra=None, maxstates=400000):
+def _engine(fn, guards, extra=None, maxstates=400000, extra_atoms=None):
     def tc(bi, t):
         for g in guards:
             if g.matches_call(fn, bi, t):
                 return True
         return bool(extra and extra(bi, t))
+
     def ta(a):
         for g in guards:
             if hasattr(g, 'track_atom') and g.track_atom(fn, a):
+                return True
+        if extra_atoms:
+            inner = a[1] if a[0] in ('ok', 'discr', 'not') else a
+            if a in extra_atoms or inner in extra_atoms:
                 return True
         return False
     return Engine(fn, track_calls=tc, track_atom=ta, maxstates=maxstates)
@@ -36,7 +41,8 @@ def effect_requires(ctx, rule, fn, effect_name, is_effect, guards_any, detail_ok
         return 0
     effset = set(eff_blocks)
     extra_calls = set()
-    for _round in range(8):
+    extra_atoms = set()
+    for _round in range(10):
         def mon(bi, b, env, facts, ms):
             # ms = most recently established guard site (or -1); invalidated when that call is re-executed
             est = []
@@ -51,7 +57,7 @@ def effect_requires(ctx, rule, fn, effect_name, is_effect, guards_any, detail_ok
                 ms = -1
             return ms, labels
         mon.init = -1
-        eng = _engine(fn, guards_any, extra=lambda bi, t: bi in extra_calls or bool(extra_track and extra_track(bi, t)))
+        eng = _engine(fn, guards_any, extra=lambda bi, t: bi in extra_calls or bool(extra_track and extra_track(bi, t)), extra_atoms=extra_atoms)
         hits = eng.explore(mon, forget=True)
         ctx.states += eng.states
         bad = {}
@@ -69,10 +75,16 @@ def effect_requires(ctx, rule, fn, effect_name, is_effect, guards_any, detail_ok
                 bad[ebi] = path
             else:
                 from lib import call_sites_in
-                new = [s for s in call_sites_in(atom) if s not in extra_calls]
-                if new:
-                    extra_calls.update(new); refine = True
-                # infeasible witness, no new atom: ignore this witness
+                inner = atom[1] if atom and atom[0] in ('ok', 'discr', 'not') and len(atom) > 1 else atom
+                if inner and inner[0] in ('place', 'local') and inner not in extra_atoms:
+                    extra_atoms.add(inner); refine = True
+                else:
+                    new = [s for s in call_sites_in(atom) if s not in extra_calls]
+                    if new:
+                        extra_calls.update(new); refine = True
+                    else:
+                        # an infeasible witness that cannot be refined further: fail closed
+                        bad[ebi] = path
         if not refine:
             break
     for ebi in eff_blocks:
